@@ -9,7 +9,7 @@ Import ListNotations.
 Lemma is_cur_some s p : pr_p s = Some p -> is_cur s p = true.
 Proof. intros H. unfold is_cur. rewrite H. apply N.eqb_refl. Qed.
 
-Theorem pair_step_g_contract k fx fs s o : op_ok s o -> pair_step_g k fx fs s o = pair_step k fx s o.
+Theorem pair_step_g_contract k fx fr fs s o : op_ok s o -> pair_step_g k fx fr fs s o = pair_step k fx fr s o.
 Proof.
   intros Hok. destruct o; try reflexivity; cbn [pair_step_g op_ok] in *.
   - (* PSendDone *)
@@ -21,32 +21,32 @@ Proof.
 Qed.
 
 Section Runs.
-Variables (k : pkind) (fx fs : bool).
+Variables (k : pkind) (fx fr fs : bool).
 Fixpoint pair_run_g (s : pair) (ops : list pop) : pair * ptrace :=
   match ops with
   | [] => (s, [])
-  | o :: r => let (s1, outs) := pair_step_g k fx fs s o in
+  | o :: r => let (s1, outs) := pair_step_g k fx fr fs s o in
               let (s2, tr) := pair_run_g s1 r in (s2, (o, s, outs) :: tr)
   end.
 
-Theorem pair_run_g_contract ops : forall s, ops_ok k fx s ops -> pair_run_g s ops = pair_run k fx s ops.
+Theorem pair_run_g_contract ops : forall s, ops_ok k fx fr s ops -> pair_run_g s ops = pair_run k fx fr s ops.
 Proof.
   induction ops as [|o r IH]; intros s H; cbn [pair_run_g pair_run]; [reflexivity|].
-  destruct H as [H1 H2]. rewrite (pair_step_g_contract k fx fs s o H1).
-  destruct (pair_step k fx s o) as [s1 outs] eqn:E. cbn [fst] in H2. rewrite (IH s1 H2). reflexivity.
+  destruct H as [H1 H2]. rewrite (pair_step_g_contract k fx fr fs s o H1).
+  destruct (pair_step k fx fr s o) as [s1 outs] eqn:E. cbn [fst] in H2. rewrite (IH s1 H2). reflexivity.
 Qed.
 End Runs.
 
 (* the stale successful send completion: nothing is scheduled, nothing else changes *)
-Theorem pair_stale_send_ignored k fx s p : is_cur s p = false ->
-  pair_step_g k fx true s (PSendDone p 0%N) =
+Theorem pair_stale_send_ignored k fx fr s p : is_cur s p = false ->
+  pair_step_g k fx fr true s (PSendDone p 0%N) =
   (mkPair (pr_p s) (pr_ttl s) (pr_wmq s) (pr_wcap s) (pr_waq s) (pr_rmq s) (pr_rcap s) (pr_raq s)
           (pr_rd s) (pr_wr s) (set_snd (pr_sending s) p None) (pr_readable s) (pr_writable s), []).
 Proof. intros H. cbn [pair_step_g]. rewrite H. reflexivity. Qed.
 
 (* a message completing on a pipe that is no longer the peer is never parked for the new peer *)
-Theorem pair_stale_recv_never_parked k fx s p m s' outs : is_cur s p = false ->
-  pair_step_g k fx true s (PRecvDone p 0%N m) = (s', outs) -> pr_rd s' = pr_rd s.
+Theorem pair_stale_recv_never_parked k fx fr s p m s' outs : is_cur s p = false ->
+  pair_step_g k fx fr true s (PRecvDone p 0%N m) = (s', outs) -> pr_rd s' = pr_rd s.
 Proof.
   intros H E. cbn [pair_step_g] in E. rewrite H in E. cbn [N.eqb andb negb] in E.
   destruct (rx_decode k (pr_ttl s) m) as [| |m'] eqn:D.
@@ -61,8 +61,8 @@ Qed.
 
 (* on the witness of PairProofs.pair_stale_send_completion_refuted the repaired callbacks
    leave message 2 in flight on pipe 2 and message 3 queued: nothing is overwritten *)
-Theorem pair_stale_send_completion_holds fx :
-  let (s, tr) := pair_run_g K0 fx true pair_init stale_witness in
+Theorem pair_stale_send_completion_holds fx fr :
+  let (s, tr) := pair_run_g K0 fx fr true pair_init stale_witness in
   tr_tx tr = [mkPmsg [] [1%N]; mkPmsg [] [2%N]] /\
   pr_p s = Some 2%N /\ sendingl s = [mkPmsg [] [2%N]] /\ pr_wmq s = [mkPmsg [] [3%N]] /\ tr_wloss tr = [].
-Proof. destruct fx; vm_compute; repeat split; reflexivity. Qed.
+Proof. destruct fx; destruct fr; vm_compute; repeat split; reflexivity. Qed.
